@@ -454,3 +454,27 @@ for _n in (2, 3):
                      # with a wall budget the solver returns models that do not replay), so the 3-signer SESSION is a
                      # run-time contract only; 3-signer key aggregation is proved above
                      tiers=("thorough",) if _n == 2 else ("runtime-only",))
+
+
+# history contract (added after seeded change C13-C: external key and challenge memoised per (nonce point, message) on the
+# script object, merkle root left out of the key): two sessions on one object, same nonces and message, different merkle
+# roots.  Run-time only -- the symbolic run of ONE 2-signer session already takes minutes (thorough tier above).
+def _gen_two_sessions(rng, tier):
+    for t in range(6 if tier == "quick" else 30):
+        d = {"d1": rng.randrange(1, N), "d2": rng.randrange(1, N), "msg": _rb(rng, 32)}
+        for k in ("k11", "k12", "k21", "k22"):
+            d[k] = rng.randrange(1, N)
+        ra, rb = _rb(rng, 32), _rb(rng, 32)
+        d["root_a"], d["root_b"] = [(b"", ra), (ra, b""), (ra, rb)][t % 3]
+        yield d
+
+
+contract(H + "musig_two_sessions", props=("C13",), tiers=("runtime-only",),
+         params={"d1": SEC, "d2": SEC, "k11": SEC, "k12": SEC, "k21": SEC, "k22": SEC, "msg": H32, "root_a": "bytes", "root_b": "bytes"},
+         requires=["spec.taproot.musig_keys_distinct([d1, d2])"],
+         ensures=["returns()",
+                  "result[0] == spec.taproot.x32(spec.taproot.musig_session_key_sorted(sorted([d1, d2], key=lambda d: spec.taproot.x32(spec.curve.mul_G(d))), root_a))",
+                  "result[2] == spec.taproot.x32(spec.taproot.musig_session_key_sorted(sorted([d1, d2], key=lambda d: spec.taproot.x32(spec.curve.mul_G(d))), root_b))",
+                  "spec.schnorr.verify(result[0], msg, result[1]) is True",
+                  "spec.schnorr.verify(result[2], msg, result[3]) is True"],
+         gen=_gen_two_sessions)
